@@ -22,8 +22,9 @@ def judge(h, obs):
             # the new filter is in force: its policy answers the probe AND the thread carries one filter more than before
             # (an earlier load may have installed the same policy already)
             grew = caller["filters"] == lf.filters_before(prev, e["caller"]) + 1
-            inforce_caller = pid in caller["in_force"] and grew
-            inforce_all = inforce_caller and all(pid in t["in_force"] and t["filters"] == caller["filters"] for t in th.values())
+            shows = (lambda t: True) if pid == -1 else (lambda t: pid in t["in_force"])    # (a policy that denies nothing shows in the filter count only)
+            inforce_caller = shows(caller) and grew
+            inforce_all = inforce_caller and all(shows(t) and t["filters"] == caller["filters"] for t in th.values())
             if o["result"] == "nil":
                 if not inforce_caller:
                     bad.append("step %d: LoadFilter returned nil but filter %d is not in force on the calling thread" % (o["step"], fid))
@@ -86,6 +87,8 @@ def tags(h):
             tsync = "TSYNC" in e["flags"]
             if e["pol"] == "invalid":
                 f.add("invalid")
+            elif e["pol"] == "allowall" and e["res"] == "nil":
+                f.add("ok-allowall")
             elif "BAD" in e["flags"]:
                 f.add("badflags")
             elif e["pol"] == "oversize":
@@ -142,10 +145,10 @@ def check(ctx, replay=None):
     jobs.append(dict(module="LoaderGen", cfg=lf.gen_cfg("{pool, t1, t2}", 2, '{{}, {"TSYNC"}, {"TSYNC", "LOG"}}', '{"valid"}', "{t1, t2}", False, allow_block=True),
                      name="LoaderGenBlock", timeout=3000))
     # ... and with an enclosing filter that denies prctl(2), and loads that repeat a policy
-    jobs.append(dict(module="LoaderGen", cfg=lf.gen_cfg("{pool, t1, t2}", 2, '{{}, {"TSYNC"}}', '{"valid"}', "{t1, t2}", False, allow_deny=True, polids="{0, 1}"),
+    jobs.append(dict(module="LoaderGen", cfg=lf.gen_cfg("{pool, t1, t2}", 2, '{{}, {"TSYNC"}}', '{"valid", "allowall"}', "{t1, t2}", False, allow_deny=True, polids="{0, 1}"),
                      name="LoaderGenDeny", timeout=3000))
     res = ctx.tlc_many(jobs, parallel=3)
-    extra = [h for h in lf.histories(res[-1]["out"]) if any(e["op"] == "denyprctl" or e.get("pid") for e in h["hist"])]
+    extra = [h for h in lf.histories(res[-1]["out"]) if any(e["op"] == "denyprctl" or e.get("pid") or e.get("pol") == "allowall" for e in h["hist"])]
     ctx.cov["states"] -= res[-1]["distinct"]
     ctx.cov["transitions"] -= res[-1]["generated"]
     res = res[:-1]
@@ -206,7 +209,7 @@ def check(ctx, replay=None):
         raise vlib.Machinery("%d of %d children failed" % (failed_children, len(picked)))
     ctx.cov["histories_generated"] = len(hists)
     ctx.cov["replayed_by_tag"] = seen_tags
-    for need in ("refused-tsync", "eacces", "enosys", "badflags", "oversize", "invalid", "ok-tsync", "ok-plain", "supported", "hook-spawn", "prctl-denied", "same-policy-again"):
+    for need in ("refused-tsync", "eacces", "enosys", "badflags", "oversize", "invalid", "ok-tsync", "ok-plain", "supported", "hook-spawn", "prctl-denied", "same-policy-again", "ok-allowall"):
         if not seen_tags.get(need):
             raise vlib.Machinery("no replayed history exercised '%s'" % need)
     ctx.cov["history_classes"] = nclasses
